@@ -124,23 +124,30 @@ const (
 	gi = uint64(1) << 30
 )
 
+// computes: the two compute profiles in three quantity renderings. Storage `attributes` mappings
+// occur with 0, 1, 2 and 3 keys (declared in non-sorted order), the cpu `attributes` mapping with 0
+// and 1 key ("arch" is the only cpu attribute this tree accepts, see sdl/cpu.go).
 func computes(v int) []Compute {
 	switch v {
 	case 0:
 		return []Compute{
 			{Name: "small", CPU: "100m", CPUQuote: true, CPUMilli: 100, Mem: "128Mi", MemBytes: 128 * mi, Sto: "1Gi", StoBytes: gi},
-			{Name: "large", CPU: "0.5", CPUMilli: 500, Mem: "1G", MemBytes: 1000000000, Sto: "512M", StoBytes: 512000000},
+			{Name: "large", CPU: "0.5", CPUMilli: 500, Mem: "1G", MemBytes: 1000000000, Sto: "512M", StoBytes: 512000000,
+				StoAttrs: []Attr{{"tier", "fast"}, {"class", "ssd"}}},
 		}
 	case 1:
 		return []Compute{
-			{Name: "small", CPU: "0.1", CPUQuote: true, CPUMilli: 100, Mem: "134217728", MemBytes: 134217728, Sto: "1024Mi", StoBytes: gi},
-			{Name: "large", CPU: "2", CPUMilli: 2000, Arch: "amd64", Mem: "1.5Gi", MemBytes: 3 * gi / 2, Sto: "10G", StoBytes: 10000000000},
+			{Name: "small", CPU: "0.1", CPUQuote: true, CPUMilli: 100, Mem: "134217728", MemBytes: 134217728, Sto: "1024Mi", StoBytes: gi,
+				StoAttrs: []Attr{{"zone", "z2"}, {"class", "default"}, {"persistent", "true"}}},
+			{Name: "large", CPU: "2", CPUMilli: 2000, Arch: "amd64", Mem: "1.5Gi", MemBytes: 3 * gi / 2, Sto: "10G", StoBytes: 10000000000,
+				StoAttrs: []Attr{{"class", "beta2"}}},
 		}
 	case 2:
 		return []Compute{
-			{Name: "small", CPU: "250m", CPUQuote: true, CPUMilli: 250, Mem: "64M", MemBytes: 64000000, Sto: "5Mi", StoBytes: 5 * mi},
+			{Name: "small", CPU: "250m", CPUQuote: true, CPUMilli: 250, Arch: "arm64", Mem: "64M", MemBytes: 64000000, Sto: "5Mi", StoBytes: 5 * mi,
+				StoAttrs: []Attr{{"b", "2"}, {"c", "3"}, {"a", "1"}}},
 			{Name: "large", CPU: "1.5", CPUMilli: 1500, Arch: "arm64", Mem: "2Gi", MemBytes: 2 * gi, Sto: "1.5G", StoBytes: 1500000000,
-				StoAttrs: []Attr{{"class", "default"}}},
+				StoAttrs: []Attr{{"z", "26"}, {"y", "25"}, {"x", "24"}}},
 		}
 	}
 	panic("computes")
